@@ -178,7 +178,8 @@ func runC28(c *Case, e *Env) Outcome {
 			if strings.HasPrefix(name, "r") && len(name) > 2 && name[1] >= '0' && name[1] <= '9' {
 				name = name[2:] // strip the per-root prefix
 			}
-			kinds[name+"/"+parts[2]] = true
+			_ = name
+			kinds[parts[2]] = true // the state the leaked process was left in (names are in the detail)
 		}
 		var ks []string
 		for k := range kinds {
